@@ -43,6 +43,7 @@ import (
 	"github.com/Cloud-Foundations/keymaster/keymasterd/eventnotifier"
 	"github.com/Cloud-Foundations/keymaster/lib/instrumentedwriter"
 	"github.com/Cloud-Foundations/keymaster/lib/pwauth/htpassword"
+	"github.com/Cloud-Foundations/keymaster/lib/server/aws_identity_cert"
 	"github.com/Cloud-Foundations/keymaster/vf/vclock"
 	"github.com/Cloud-Foundations/keymaster/vf/vfeng"
 	"github.com/duo-labs/webauthn/webauthn"
@@ -228,6 +229,7 @@ type vfOpts struct {
 	SSHExtensions  []sshExtension
 	NoDB           bool
 	OIDCClients    []OpenIDConnectClientConfig
+	AWS            bool
 	Tweak          func(*RuntimeState)
 }
 
@@ -379,6 +381,17 @@ func vfNewWorld(o vfOpts) *vfWorld {
 	if !o.NoDB {
 		w.openDBs()
 	}
+	if o.AWS {
+		st.Config.AwsCerts.AllowedAccounts = []string{vfAWSAccount}
+		vfMust(st.configureAwsRoles())
+	}
+	failureWriter := func(rw http.ResponseWriter, r *http.Request, errorString string, code int) {
+		st.writeFailureResponse(rw, r, code, errorString)
+	}
+	st.awsCertIssuer, err = aws_identity_cert.New(aws_identity_cert.Params{
+		CertificateGenerator: st.generateRoleCert, AccountIdValidator: st.checkAwsAccountAllowed,
+		FailureWriter: failureWriter, Logger: logger, HttpClient: &http.Client{Transport: vfFakeSTS{}}})
+	vfMust(err)
 	if o.Tweak != nil {
 		o.Tweak(st)
 	}
@@ -668,4 +681,33 @@ func vfAt(d time.Duration, f func()) {
 	vclock.SetOffset(cur + d)
 	f()
 	vclock.SetOffset(cur)
+}
+
+// ---- fake AWS STS (GetCallerIdentity over a presigned URL), no network.
+// The presigned URL carries, in place of a real signature, the identity the
+// "signature" proves: X-Amz-Signature=<account>.<role> ; "bad" does not verify.
+
+const vfAWSAccount = "123456789012"
+
+type vfFakeSTS struct{}
+
+func (vfFakeSTS) RoundTrip(r *http.Request) (*http.Response, error) {
+	sig := r.URL.Query().Get("X-Amz-Signature")
+	mk := func(code int, body string) (*http.Response, error) {
+		return &http.Response{StatusCode: code, Status: fmt.Sprintf("%d", code), Body: io.NopCloser(strings.NewReader(body)), Header: http.Header{}, Request: r, Proto: "HTTP/1.1", ProtoMajor: 1, ProtoMinor: 1}, nil
+	}
+	parts := strings.SplitN(sig, ".", 2)
+	if len(parts) != 2 || parts[0] == "bad" {
+		return mk(403, "<ErrorResponse><Error><Code>SignatureDoesNotMatch</Code></Error></ErrorResponse>")
+	}
+	return mk(200, fmt.Sprintf("<GetCallerIdentityResponse><GetCallerIdentityResult><Arn>arn:aws:sts::%s:assumed-role/%s/session1</Arn><UserId>AROAEXAMPLE:session1</UserId><Account>%s</Account></GetCallerIdentityResult></GetCallerIdentityResponse>", parts[0], parts[1], parts[0]))
+}
+
+// vfAWSReq builds a cloud-role certificate request for (account, role).
+func vfAWSReq(account, role, pubPEM string) vfReq {
+	return vfReq{Method: "POST", Path: "/aws/requestRoleCertificate/v1", RawBody: []byte(pubPEM), Header: map[string]string{
+		"claimed-arn":      fmt.Sprintf("arn:aws:iam::%s:role/%s", account, role),
+		"presigned-method": "GET",
+		"presigned-url":    fmt.Sprintf("https://sts.us-east-1.amazonaws.com/?Action=GetCallerIdentity&Version=2011-06-15&X-Amz-Signature=%s.%s", account, role),
+	}}
 }
